@@ -22,11 +22,11 @@ func (d Dict) render(f *File, w io.Writer, s *Statement) error {
 	first := true
 	// must order keys to ensure repeatable source
 	type kv struct {
-		k Code
-		v Code
+		text string
+		k    Code
+		v    Code
 	}
-	lookup := map[string]kv{}
-	keys := []string{}
+	keys := []kv{}
 	for k, v := range d {
 		if k == nil || v == nil || k.isNull(f) || v.isNull(f) {
 			continue
@@ -35,13 +35,14 @@ func (d Dict) render(f *File, w io.Writer, s *Statement) error {
 		if err := k.render(f, buf, nil); err != nil {
 			return err
 		}
-		keys = append(keys, buf.String())
-		lookup[buf.String()] = kv{k: k, v: v}
+		// keep the pair itself, not just the text of its key: two different keys can render the
+		// same text, and both pairs must survive.
+		keys = append(keys, kv{text: buf.String(), k: k, v: v})
 	}
-	sort.Strings(keys)
+	sort.SliceStable(keys, func(i, j int) bool { return keys[i].text < keys[j].text })
 	for _, key := range keys {
-		k := lookup[key].k
-		v := lookup[key].v
+		k := key.k
+		v := key.v
 		if first && len(keys) > 1 {
 			if _, err := w.Write([]byte("\n")); err != nil {
 				return err
